@@ -79,7 +79,7 @@ fn list_set(v: Option<&str>) -> BTreeSet<String> {
 impl Property for C14 {
     type Case = Case;
     const ID: &'static str = "C14";
-    const RULE: &'static str = "generated: CORS policy (wildcard or specific origin, credentials flag, 0–3 allow and expose headers, optional max-age) on the root application × application trees as in C01 (a route's methods spread over several items and mounts) × up to 20 requests: simple requests with any method to registered and unregistered paths, preflights with Access-Control-Request-Method over the 7 methods and garbage and optional Access-Control-Request-Headers. Oracle: reference CORS model from the statement fed with the policy and the flattened route table (Allow-Methods compared as a set). Non-trivial = preflight to a route with ≥ 2 methods or whose methods come from ≥ 2 registrations; distinct by (policy, route table, request).";
+    const RULE: &'static str = "generated: CORS policy (wildcard or specific origin, credentials flag, 0–3 allow and expose headers, optional max-age) on the root application × application trees as in C01 (a route's methods spread over several items and mounts) × up to 20 requests: simple requests with any method to registered and unregistered paths, preflights with Access-Control-Request-Method over the 7 methods, TRACE, lower case, fragments of method names and lists of several methods (none of which is a method) and optional Access-Control-Request-Headers. Oracle: reference CORS model from the statement fed with the policy and the flattened route table (Allow-Methods compared as a set). Non-trivial = preflight to a route with ≥ 2 methods or whose methods come from ≥ 2 registrations; distinct by (policy, route table, request).";
     const ASSUMPTIONS: &'static [&'static str] = &[
         "the policy sits on the root application, so its scope is every request (scoping of fangs is C04's subject)",
         "preflights asking for HEAD or OPTIONS may succeed or fail (the statement does not say)",
@@ -97,7 +97,7 @@ impl Property for C14 {
         250
     }
     fn in_domain(&self, case: &Case) -> bool {
-        case.requests.iter().all(|r| r.target.starts_with('/') && r.target.is_ascii() && !r.target.contains(' ') && r.acrm.as_ref().map_or(true, |s| !s.is_empty() && s.bytes().all(|b| b.is_ascii_alphanumeric())) && r.acrh.as_ref().map_or(true, |s| !s.is_empty() && s.bytes().all(|b| b.is_ascii_alphanumeric() || b == b'-' || b == b',' || b == b' ') && s.trim() == s))
+        case.requests.iter().all(|r| r.target.starts_with('/') && r.target.is_ascii() && !r.target.contains(' ') && r.acrm.as_ref().map_or(true, |s| !s.is_empty() && s.bytes().all(|b| b.is_ascii_alphanumeric() || b == b',' || b == b' ') && s.trim() == s) && r.acrh.as_ref().map_or(true, |s| !s.is_empty() && s.bytes().all(|b| b.is_ascii_alphanumeric() || b == b'-' || b == b',' || b == b' ') && s.trim() == s))
             && case.policy.allow_headers.len() <= 3
             && case.policy.expose_headers.len() <= 3
     }
@@ -113,6 +113,14 @@ impl Property for C14 {
             6 => (0usize..7).prop_map(|i| ALL_METHODS[i].as_str().to_string()),
             1 => Just("TRACE".to_string()),
             1 => Just("get".to_string()),
+            // not a method, but text that occurs in a list of methods: fragments of names, several names at once
+            1 => (0usize..43, 1usize..12).prop_map(|(at, len)| {
+                const JOINED: &str = "GET, PUT, POST, PATCH, DELETE, HEAD, OPTIONS";
+                let end = (at + len).min(JOINED.len());
+                let t = JOINED[at.min(end - 1)..end].trim_matches(|c| c == ' ' || c == ',');
+                if t.is_empty() { "T".to_string() } else { t.to_string() }
+            }),
+            1 => (0usize..7, 0usize..7).prop_map(|(a, b)| format!("{}, {}", ALL_METHODS[a].as_str(), ALL_METHODS[b].as_str())),
         ];
         let acrh = prop::option::of(prop_oneof![Just("X-Custom".to_string()), Just("content-type, x-custom".to_string()), Just("X-A,X-B".to_string())]);
         let extra = (prop::bool::weighted(0.6), acrm, acrh);
